@@ -89,6 +89,12 @@ func C20(r *core.Run) {
 				if s, ok := core.ConstString(info, x.Args[0]); ok {
 					fmtPos = x.Pos()
 					fmtZero, fmtW = parsePadVerb(s)
+					// "%0*s" with the width as a constant argument
+					if s == "%0*s" && len(x.Args) == 3 {
+						if v, ok := core.ConstInt(info, x.Args[1]); ok {
+							fmtZero, fmtW = true, v
+						}
+					}
 				}
 			}
 		}
